@@ -1,6 +1,7 @@
 package main
 
 import (
+	"regexp"
 	"fmt"
 	"go/token"
 	"go/types"
@@ -289,16 +290,66 @@ func (e *Exec) toGo(v Value, t types.Type) (interface{}, bool) {
 
 func (e *Exec) sprintf(format string, args []Value) Str {
 	gos := make([]interface{}, len(args))
+	allConc := true
 	for i, a := range args {
 		it := a.(Iface)
 		g, ok := e.toGo(it, nil)
 		if !ok {
-			return Str{s: "<formatted:" + format + ">", opaque: true}
+			allConc = false
+			continue
 		}
 		gos[i] = g
 	}
 	f := strings.ReplaceAll(format, "%w", "%v")
-	return Str{s: fmt.Sprintf(f, gos...)}
+	if allConc {
+		return Str{s: fmt.Sprintf(f, gos...)}
+	}
+	// piecewise: a string with symbolic bytes under a plain %v / %s is spliced in byte for byte
+	opaque := Str{s: "<formatted:" + format + ">", opaque: true}
+	out := Str{}
+	arg := 0
+	for i := 0; i < len(f); {
+		j := strings.IndexByte(f[i:], '%')
+		if j < 0 {
+			out = strConcat(out, Str{s: f[i:]})
+			break
+		}
+		out = strConcat(out, Str{s: f[i : i+j]})
+		i += j
+		k := i + 1
+		for k < len(f) && strings.IndexByte("+-# 0123456789.", f[k]) >= 0 {
+			k++
+		}
+		if k >= len(f) {
+			return opaque
+		}
+		verb := f[i : k+1]
+		i = k + 1
+		if f[k] == '%' {
+			out = strConcat(out, Str{s: "%"})
+			continue
+		}
+		if f[k] == '*' || arg >= len(args) {
+			return opaque
+		}
+		if gos[arg] != nil || isNilIface(args[arg]) {
+			out = strConcat(out, Str{s: fmt.Sprintf(verb, gos[arg])})
+		} else {
+			it := args[arg].(Iface)
+			st, ok := it.v.(Str)
+			if !ok || st.opaque || (verb != "%v" && verb != "%s") {
+				return opaque
+			}
+			out = strConcat(out, st)
+		}
+		arg++
+	}
+	return out
+}
+
+func isNilIface(v Value) bool {
+	it, ok := v.(Iface)
+	return ok && it.t == nil
 }
 
 // wrapVerbArgs returns the argument indexes consumed by %w verbs.
@@ -459,6 +510,46 @@ func init() {
 	}
 	reg("sort.Slice", sortSlice)
 	reg("sort.SliceStable", sortSlice)
+
+	// ----- regexp on concrete patterns and subjects: delegated to the Go library the engine is linked with
+	// (the regexp engine itself is not encoded; symbolic patterns or subjects are unsupported) -----
+	concStr := func(e *Exec, v Value, what string) string {
+		st, ok := v.(Str)
+		if !ok || st.b != nil || st.opaque {
+			e.unsupported("regexp: symbolic " + what)
+		}
+		return st.s
+	}
+	reg("regexp.QuoteMeta", func(e *Exec, c *frame, fn *ssa.Function, a []Value) Value {
+		e.intrHit["regexp-concrete-delegation"]++
+		return Str{s: regexp.QuoteMeta(concStr(e, a[0], "pattern"))}
+	})
+	reg("regexp.MustCompile", func(e *Exec, c *frame, fn *ssa.Function, a []Value) Value {
+		e.intrHit["regexp-concrete-delegation"]++
+		rx, err := regexp.Compile(concStr(e, a[0], "pattern"))
+		if err != nil {
+			panic(targetPanic{Iface{t: e.P.rtErrT, v: Str{s: "regexp: Compile: " + err.Error()}}})
+		}
+		cell := new(Value)
+		*cell = nativeObj{rx}
+		return cell
+	})
+	reg("(*regexp.Regexp).FindAllString", func(e *Exec, c *frame, fn *ssa.Function, a []Value) Value {
+		rx := (*a[0].(*Value)).(nativeObj).v.(*regexp.Regexp)
+		res := rx.FindAllString(concStr(e, a[1], "subject"), int(int64(e.concInt(a[2].(Sc), "FindAllString n"))))
+		if res == nil {
+			return Slice(nil)
+		}
+		out := make(Slice, len(res))
+		for i, r := range res {
+			out[i] = Str{s: r}
+		}
+		return out
+	})
+	reg("(*regexp.Regexp).MatchString", func(e *Exec, c *frame, fn *ssa.Function, a []Value) Value {
+		rx := (*a[0].(*Value)).(nativeObj).v.(*regexp.Regexp)
+		return mkBool(rx.MatchString(concStr(e, a[1], "subject")))
+	})
 
 	// ----- database/sql row iteration: "no rows" (statement-contract harness) -----
 	reg("(*database/sql.Rows).Next", func(e *Exec, c *frame, fn *ssa.Function, a []Value) Value { return mkBool(false) })
